@@ -4,6 +4,7 @@ import gen, vf, files, oracles, cli
 
 
 def run(ctx):
+    gen.INTEGRAL[0] = True          # real-typed weights are integer-valued here: how fractional weights are rounded is C08's subject
     ctx.trusted = ['Coq 8.16.1 kernel; all theorems closed under the global context',
                    'translators T3 (option block, selection expression, switch table, call arguments, writers of multitensor.cpp; template defaults and formal parameters of main.hpp) and T4 (writer index expressions)',
                    'correspondence K-PARSE: read_adjacency_data run in process on generated file BYTES vs the extracted byte-level model; K-WRITE: the real Multitensor binary (sanitized build of the working tree) vs the library (harness E2E) and K-E2E vs the model',
